@@ -299,7 +299,7 @@ def ddmin_bytes(data, still_fails, max_tests=400):
     return data
 
 
-def read_one(drv, mk, tc, bu, data, fail_at=-1, style=0, seed=1, wd=None):
+def read_one(drv, mk, tc, bu, data, fail_at=-1, style=0, seed=1, wd=None, timeout_ms=None):
     """one isolated read of `data`; returns (class, detail)"""
     wd = wd or (IOB / "tmp")
     wd.mkdir(parents=True, exist_ok=True)
@@ -308,7 +308,9 @@ def read_one(drv, mk, tc, bu, data, fail_at=-1, style=0, seed=1, wd=None):
     env = dict(os.environ)
     env.update(DRV_ENV)
     env["IO_ERRFILE"] = str(jf.with_suffix(".err"))
-    p = subprocess.run([str(drv), "read", str(jf)], stdout=subprocess.PIPE, stderr=subprocess.PIPE, env=env, text=True, errors="replace", timeout=120)
+    if timeout_ms:
+        env["IO_TIMEOUT_MS"] = str(timeout_ms)
+    p = subprocess.run([str(drv), "read", str(jf)], stdout=subprocess.PIPE, stderr=subprocess.PIPE, env=env, text=True, errors="replace", timeout=600)
     for l in p.stdout.splitlines():
         if l.startswith("R x "):
             t = l.split(" ", 3)
